@@ -208,6 +208,25 @@ def check(P, R):
     R.ob('C15.d', dec, dec.node, ok, text='reader framing bytes ! and ?', detail='' if ok else 'reader does not use the writer\'s framing bytes', nontrivial=False)
 
     check_get_cookie(P, R)
+    # a copied response owns its cookies: they are rebuilt from the rendered text, not from the Morsel objects of the original (SimpleCookie(mapping)
+    # and dict-style copies keep the very same Morsels, and set_cookie mutates a Morsel in place)
+    R.rule('C15.f', 'a response copy owns its cookie morsels', floor=1)
+    cpf = P.func('ombott.response:BaseResponse.copy')
+    stores_ = [st for st in walk_shallow(cpf.node) if isinstance(st, ast.Assign) and any(isinstance(t, ast.Attribute) and t.attr == '_cookies' for t in st.targets)]
+    loads_ = [c for c in walk_shallow(cpf.node) if isinstance(c, ast.Call) and call_attr(c) in ('load', 'update') and (dotted(c.func.value) or '').endswith('._cookies')]
+    for st in stores_:
+        shared = [x for x in ast.walk(st.value) if isinstance(x, ast.Attribute) and dotted(x) == 'self._cookies'
+                  and not (isinstance(getattr(x, '_p', None), ast.Attribute) and getattr(x, '_p').attr in ('output', 'js_output'))]
+        R.ob('C15.f', cpf, st, not shared, text=f'{short(st)}', detail='' if not shared else
+             'the copy\'s cookie jar is built from the original\'s Morsel objects: both responses then share them, and a later set_cookie / delete_cookie '
+             'on either one rewrites the cookie of the other (the signed value read back is not the one that was set)',
+             why='a cookie set on a response is read back unchanged', key_extra='copy-store')
+    for c in loads_:
+        a0 = c.args[0] if c.args else None
+        shared = a0 is not None and any(isinstance(x, ast.Attribute) and dotted(x) == 'self._cookies'
+                                        and not (isinstance(getattr(x, '_p', None), ast.Attribute) and getattr(x, '_p').attr in ('output', 'js_output')) for x in ast.walk(a0))
+        R.ob('C15.f', cpf, c, not shared, text=f'{short(c)}', detail='' if not shared else
+             'the copy loads the Morsel objects of the original instead of their rendered text', key_extra='copy-load')
 
 
 def _lit(e, f=None):
